@@ -164,6 +164,10 @@ PREFIXES = {
     'empty-selected': [(b'LOGIN testuser testpass', 'nonauth'), (b'CREATE Empty', 'auth'), (b'SELECT Empty', 'auth')],
     'selected-then-deleted-elsewhere': [(b'LOGIN testuser testpass', 'nonauth'), (b'CREATE Tmp', 'auth'),
                                         (b'SELECT Tmp', 'auth'), (b'DELETE Tmp', 'elsewhere')],
+    'selected-then-recreated-elsewhere': [(b'LOGIN testuser testpass', 'nonauth'), (b'SELECT Sent', 'auth'),
+                                          (b'DELETE Sent', 'elsewhere'), (b'CREATE Sent', 'elsewhere')],
+    'inbox-selected-then-renamed-elsewhere': [(b'LOGIN testuser testpass', 'nonauth'), (b'SELECT INBOX', 'auth'),
+                                              (b'RENAME INBOX Old', 'elsewhere')],
     'examined-then-renamed-elsewhere': [(b'LOGIN testuser testpass', 'nonauth'), (b'CREATE Tmp', 'auth'),
                                         (b'EXAMINE Tmp', 'auth'), (b'RENAME Tmp Tmp2', 'elsewhere')],
 }
@@ -197,6 +201,14 @@ def bounded_states(label):
                 res.evaluations += 1
                 res.distinct.add(sig)
                 if errs:
+                    replaced = any(len(it) > 1 and it[1] == 'elsewhere' and (it[0].startswith(b'CREATE') or it[0].startswith(b'RENAME INBOX'))
+                                   for it in prog)
+                    if replaced and any('IndexError' in e for e in errs):
+                        # the name of the selected mailbox was given to ANOTHER mailbox meanwhile (known finding)
+                        res.fail(f'{label}/selection_is_bound_to_a_name_not_to_a_mailbox',
+                                 [('(another connection) ' if len(it) > 1 and it[1] == 'elsewhere' else '') + it[0].decode('latin1')[:50]
+                                  for it in prog], errs[:3])
+                        continue
                     res.fail(f'{label}/follows_the_rfc3501_state_machine',
                              [it[0].decode('latin1')[:50] for it in prog], errs[:3])
                 elif len(res.samples) < 2:
